@@ -122,6 +122,37 @@ class P(flow.Plan):
     assumptions = ["the map in force is observed through apply_transform() on 0,e1,e2,e3 (whether that map is the right one is C13)",
                    "float runs: decimal_places=2, |coordinates| <= 20 units, tolerance 1.5 output units; integer sub-group: exact"]
 
+    def extra(self, tier, sd):
+        """C04_Map -- 'the image under THAT transform': the map observed through apply_transform() is the composition the
+        translate / rotate / scale / reflect / mirror calls define.  Decided by TransformTrace's independent 4x4 integer model
+        (clause C13_Matrix) on transform histories of the integer sub-group (added after seed C04c: a two-factor scale())."""
+        import copy as _c
+        import random as _r
+        from . import check_c13, xform_rec
+        n = 120 if tier == "thorough" else 30
+        traces, inputs = [], []
+        for i in range(n):
+            rng = _r.Random(sd * 6007 + i)
+            descs = xform_rec.random_descs(rng, rng.randint(8, 20), True)
+            traces.append(xform_rec.run_descs(descs, True, {"driver": "random", "seed": sd * 6007 + i}))
+            inputs.append({"exact": True, "descs": descs})
+        cp = check_c13.P()
+        ctl = [c for c in cp.controls(traces) if c["meta"]["control"]["clause"] == "C13_Matrix"][:1]
+        failures, done, _ = flow.validate(cp, traces + ctl)
+        if ctl and not [f for f in failures if f[0] == len(traces) and f[2] == "C13_Matrix"]:
+            raise flow.MachineryError("C04_Map: the planted wrong matrix was not detected")
+        checks = sum((done[i][1] or {}).get("C13_Matrix", 0) for i in range(len(traces)))
+        if checks == 0:
+            raise flow.MachineryError("C04_Map never exercised")
+        out, seen = [], set()
+        for f in failures:
+            if f[0] < len(traces) and f[2] == "C13_Matrix" and f[0] not in seen:
+                seen.add(f[0])
+                out.append({"clause": "C04_Map", "step": f[1], "meta": traces[f[0]]["meta"], "input": inputs[f[0]],
+                            "failing_event": {"call": traces[f[0]]["ev"][f[1] - 1].get("call"), "descs": inputs[f[0]]["descs"][:f[1]]}})
+        return out, {"C04_Map": {"histories": len(traces), "chain_calls_checked": checks, "violations": len(out),
+                                 "negative_control_detected": bool(ctl)}}
+
     def model_runs(self, tier):
         if tier == "thorough":
             root, cfg = model(["id", "rotz+tx", "scale", "roty"], [1, 2], [0, 2], [1])
@@ -207,4 +238,21 @@ class P(flow.Plan):
 
 
 def run(pid, tier, replay=None):
+    if replay:
+        import json
+        with open(replay) as fh:
+            payload = json.load(fh)
+        if payload.get("clause") == "C04_Map":              # decided by TransformTrace: re-execute that history
+            from . import check_c13, xform_rec
+            from .common import EXIT_OK, EXIT_VIOLATION, say
+            inp = payload["input"]
+            traces = [xform_rec.run_descs(inp["descs"], True, {"driver": "replay"})]
+            failures, _, _ = flow.validate(check_c13.P(), traces)
+            bad = [f for f in failures if f[2] == "C13_Matrix"]
+            if bad:
+                say("VIOLATION property=C04 replay=%s" % replay)
+                say("  clause C04_Map false at step %d" % bad[0][1])
+                return EXIT_VIOLATION
+            say("C04 replay: C04_Map held on this history")
+            return EXIT_OK
     return flow.run(P(), tier, replay)
